@@ -1208,6 +1208,8 @@ class Validator:
             F.add('nil')
             if v in ('1', '0'):
                 F.add('nil-lexical-numeric')
+            if v in ('false', '0'):
+                F.add('nil-false')
             if v != el.nil:
                 F.add('nil-lexical-ws')
             if decl is None:
@@ -2019,7 +2021,7 @@ def _gen_schema(r, force=None):
         tags.add('abstract-type')
     if F.block:
         tags.add('focus-type-block')
-    rdecl = s.add_elem(EDecl(tns, 'r', F, glob=True, nillable=r.random() < 0.4, block=blockset(0.2, ('extension', 'restriction'))))
+    rdecl = s.add_elem(EDecl(tns, 'r', F, glob=True, nillable=force.get('nillable', r.random() < 0.4), block=blockset(0.2, ('extension', 'restriction'))))
     roots = [('r', rdecl)]
     derived = []
     if named and not twowild:
